@@ -11,6 +11,7 @@ From PyGql Require Import Proofs.DepthTermination Proofs.ExecTermination Proofs.
 
 Arguments field_definition : simpl never.
 Arguments collect_for : simpl never.
+Arguments complete_field : simpl never.
 
 (* "for all sufficiently large fuels" *)
 Definition ev (P : nat -> nat -> Prop) : Prop :=
@@ -144,6 +145,16 @@ Section ExecTerm.
 
   End Nodes.
 
+  Lemma complete_field_term nodes (Hch : exec_term (children_of nodes)) t p v :
+    ev (fun fuel cfuel => complete_field sch tyres (ex cfuel fuel) nodes t p v <> OutOfFuel).
+  Proof.
+    eapply ev_mono; [|apply (complete_value_term nodes Hch t p v)]. intros a b H. cbv beta in H.
+    unfold complete_field.
+    match goal with |- context [match ?x with _ => _ end] => destruct x as [c| |k q|k] eqn:E end; try discriminate.
+    - exfalso. apply H. reflexivity.
+    - destruct (Nat.eqb k REJ_COERCION); discriminate.
+  Qed.
+
   Lemma resolve_field_term nodes (Hch : exec_term (children_of nodes)) tname parent k fd p :
     ev (fun fuel cfuel => resolve_field sch coerce_args world tyres (ex cfuel fuel) tname parent k fd nodes p
                           <> OutOfFuel).
@@ -153,8 +164,8 @@ Section ExecTerm.
       try (apply ev_const; intros; discriminate); [|exfalso; eapply Hco; exact Ec].
     destruct k; try (apply ev_const; intros; discriminate).
     - destruct (world p parent tname (f_name fd) args); try (apply ev_const; intros; discriminate);
-        apply complete_value_term; exact Hch.
-    - apply complete_value_term; exact Hch.
+        apply complete_field_term; exact Hch.
+    - apply complete_field_term; exact Hch.
   Qed.
 
   Lemma exec_groups_term tname parent p : forall g,
